@@ -294,7 +294,7 @@ def run_live(name: str, fam: dict, seed: int, examples: int) -> list[dict]:
             body = {"id": n, "name": "n%d" % n, "tags": ["ta", "tb"], "k/1": "sx", "nested": {"ids": [7, n]}}
             out = (status, [("Content-Type", "application/json"), ("Location", "/users/%d" % n), ("X-Rid", "r%d" % n)], json.dumps(body).encode())
         else:
-            out = (204 if rec.method == "DELETE" else 200, [("Content-Type", "application/json")], b"{}")
+            out = (204, [], b"") if rec.method == "DELETE" else (200, [("Content-Type", "application/json")], b"{}")
         sent[rec.seq] = out
         return out
 
@@ -309,9 +309,13 @@ def run_live(name: str, fam: dict, seed: int, examples: int) -> list[dict]:
                                                     suppress_health_check=list(hypothesis.HealthCheck))))
         recorders = []
         errors = []
-        for ev in from_schema(schema, config=cfg).execute():
+        stream = from_schema(schema, config=cfg).execute()
+        t0 = time.time()
+        for ev in stream:
             if isinstance(ev, events.ScenarioFinished):
                 recorders.append(ev.recorder)
+                if len(recorders) >= 4 * examples or time.time() - t0 > 2.0 * examples:
+                    stream.stop()  # the engine re-runs the state machine after some outcomes; bound the run by the official stop
             elif isinstance(ev, (events.NonFatalError, events.FatalError)):
                 errors.append(repr(getattr(ev, "value", ev))[:200])
         log = {r.header("X-Schemathesis-TestCaseId"): r for r in srv.snapshot()}
